@@ -28,7 +28,7 @@ type TreeCfg struct {
 var ParseCfg = TreeCfg{Vals: AllVals, Bare: true, Cmp: true, Range: true, List: true, Group: true, And: true, Or: true, Not: true,
 	Must: true, MNot: true, Boost: true, Fuzzy: true, ExoticFields: true, EqSign: true, MaxDepth: 5}
 
-var powPool = []string{"2", "10", "1.5", "4", "1.2", "0.5", "1", "3"}
+var powPool = []string{"2", "10", "1.5", "4", "1.2", "0.5", "1", "3", "1.2345678", "0.30000000000000004", "0.0000005", "1e-7", "123456789.125", "1e21"}
 var distPool = []string{"2", "10", "4", "1", "0", "-2", "3"}
 
 func genLeaf(t *rapid.T, c TreeCfg) *Node {
